@@ -234,6 +234,11 @@ func Schema(t *T, o SchemaOpts) *model.Schema {
 		root.Fields = append(root.Fields, f)
 	}
 	s.Types = append(s.Types, root)
+	// The library knows a built-in scalar only when the schema mentions it (a quirk outside the
+	// listed properties): every generated schema mentions all five.
+	s.Types = append(s.Types, &model.TypeDef{Kind: model.KObject, Name: "Z5", Fields: []*model.FieldDef{
+		{Name: "i", Type: model.T("Int")}, {Name: "f", Type: model.T("Float")}, {Name: "s", Type: model.T("String")},
+		{Name: "b", Type: model.T("Boolean")}, {Name: "d", Type: model.T("ID")}}})
 	if o.Mutation {
 		m := &model.TypeDef{Kind: model.KObject, Name: "M"}
 		for j, k := 0, intn(t, 2, 5, "nMutFields"); j < k; j++ {
